@@ -328,6 +328,70 @@ Fixpoint post_seq (st : state) (qs : list req) : res (state * list outcome) :=
       end
   end.
 
+(* ------------------------------------------------------------------ cache.SetBTotal and the shared memory around it *)
+(* Filename_t.CreateTime: strconv.Atoi(string(f[2:12])) converted to Time4 (int32); None = the error return *)
+Definition create_time (fn : list Z) : option Z :=
+  match atoi (firstn 10 (skipn 2 fn)) with Some v => Some (wrap32 v) | None => None end.
+
+(* cache.SetBTotal (cache/cache_board.go) on the bytes of the board's .DIR: what it leaves in Shm.Total and
+   Shm.LastPostTime of the board ([old_last] = LastPostTime before the call) and whether it returns an error.
+   Total is written first and unconditionally; LastPostTime is 0 for an empty index and for a newest entry named
+   FN_SAFEDEL, otherwise the create time in the newest entry's name; when that name does not parse the error is
+   returned with LastPostTime untouched. It reads NOTHING else: not Shm.BBusyState (the flag of ReloadBCache /
+   SortBCache), not Shm.BusyStateB (the flag of ResetBoard), not the old Total. *)
+Definition set_btotal (dir : list Z) (old_last : Z) : Z * Z * bool :=
+  let n := wrap32 (lenZ dir / ptttype.FILE_HEADER_RAW_SZ) in
+  if n =? 0 then (n, 0, false)
+  else
+    let fn := firstn (Z.to_nat ptttype.FNLEN) (skipn (Z.to_nat ((n - 1) * ptttype.FILE_HEADER_RAW_SZ)) dir) in
+    if bytes_eqb (cprefix fn) FN_SAFEDEL then (n, 0, false)
+    else match create_time fn with
+         | Some t => (n, t, false)
+         | None => (n, old_last, true)
+         end.
+
+(* the part of the shared memory of the board cache that a post request can find in any condition: the global busy
+   flag (left set for good by a loader that went away between setting and clearing it), the per-board busy stamps,
+   and LastPostTime; Shm.Total is b_total of the board *)
+Record shm := mkShm {
+  sh_bbusy : Z;            (* Shm.BBusyState *)
+  sh_busyb : list Z;       (* Shm.BusyStateB[bid-1], per scenario board *)
+  sh_lastpost : list Z     (* Shm.LastPostTime[bid-1], per scenario board *)
+}.
+
+Definition with_total (b : board) (n : Z) : board := mkBoard (b_name b) (b_mods b) (b_dir b) (b_files b) n.
+
+(* DoPostArticle with that shared memory made explicit: the post itself, then SetBTotal on the index as it is after
+   AppendRecord. The bool is the error return of SetBTotal (DoPostArticle would pass it on). *)
+Definition post_shm (sh : shm) (st : state) (q : req) : res (shm * state * outcome * bool) :=
+  match post st q with
+  | Ok (st', o) =>
+      let bi := Z.to_nat (q_board q) in
+      let b' := nth bi (s_boards st') dflt_board in
+      let '(n, t, err) := set_btotal (b_dir b') (nth bi (sh_lastpost sh) 0) in
+      Ok (mkShm (sh_bbusy sh) (sh_busyb sh) (upd bi t (sh_lastpost sh)),
+          mkState (s_users st') (upd bi (with_total b' n) (s_boards st')), o, err)
+  | Crash => Crash
+  | Hang => Hang
+  end.
+
+Fixpoint post_seq_shm (sh : shm) (st : state) (qs : list req) : res (shm * state * list outcome * bool) :=
+  match qs with
+  | [] => Ok (sh, st, [], false)
+  | q :: rest =>
+      match post_shm sh st q with
+      | Ok (sh', st', o, false) =>
+          match post_seq_shm sh' st' rest with
+          | Ok (sh'', st'', os, e) => Ok (sh'', st'', o :: os, e)
+          | Crash => Crash
+          | Hang => Hang
+          end
+      | Ok (sh', st', o, true) => Ok (sh', st', [o], true)
+      | Crash => Crash
+      | Hang => Hang
+      end
+  end.
+
 (* bbs.GetArticle -> ptt.ReadPost: the article id is decoded to a Filename_t, the file of that name is read *)
 Definition fetch (b : board) (aid : list Z) : res (option (list Z)) :=
   match articleid_to_fn aid with
@@ -433,10 +497,37 @@ Definition enc_result (r : state * list outcome) : list Z :=
 
 Definition small (n : Z) : bool := (0 <=? n) && (n <=? 64).
 
+Definition wire_shm (r : res (shm * state * list outcome * bool)) : list Z :=
+  match r with
+  | Ok (sh, st, os, false) => ST_OK :: enc_result (st, os) ++ sh_bbusy sh :: sh_busyb sh ++ sh_lastpost sh
+  | Ok (_, _, _, true) => [ST_ERR; 1]
+  | Crash => [ST_CRASH]
+  | Hang => [ST_HANG]
+  end.
+
 (* op 1: [1]; [nusers nboards nposts]; users; boards; posts  ->  outcomes, numposts, boards
-   op 2: [2]; [total]; name; dir; files; aid               ->  0 absent / 1 content *)
+   op 2: [2]; [total]; name; dir; files; aid               ->  0 absent / 1 content
+   op 3: [3]; [nusers nboards nposts]; [bbusystate busystateb..]; [lastposttime..]; users; boards; posts
+                                                           ->  outcomes, numposts, boards, bbusystate, busystateb.., lastposttime.. *)
 Definition run_case (args : list (list Z)) : list Z :=
   match args with
+  | [3] :: [nu; nb; np] :: (bbusy :: busyb) :: lastpost :: g =>
+      if small nu && small nb && small np && (lenZ busyb =? nb) && (lenZ lastpost =? nb) then
+        match dec_users (Z.to_nat nu) g with
+        | None => [ST_BADCASE]
+        | Some (us, g1) =>
+            match dec_boards (Z.to_nat nb) g1 with
+            | None => [ST_BADCASE]
+            | Some (bs, g2) =>
+                match dec_reqs (Z.to_nat np) g2 with
+                | None => [ST_BADCASE]
+                | Some qs =>
+                    let st := mkState us bs in
+                    if forallb (req_ok st) qs then wire_shm (post_seq_shm (mkShm bbusy busyb lastpost) st qs) else [ST_BADCASE]
+                end
+            end
+        end
+      else [ST_BADCASE]
   | [1] :: [nu; nb; np] :: g =>
       if small nu && small nb && small np then
         match dec_users (Z.to_nat nu) g with
